@@ -147,6 +147,7 @@ def run_threaded(sc, max_rounds=120):
                                                    get_ident=threading.get_ident)
     streamz.core.get_thread_identity = lambda: (1 if sched.current == 'loop' else
                                                 (100 + sched.current.cid if isinstance(sched.current, Caller) else 0))
+    foreign = set()        # ids of ready handles scheduled by a caller thread without waking the loop
     ctx = Ctx(sc, rec, clock, 'threaded')
     res.ctx = ctx
     period = scenario_period(sc)
@@ -164,6 +165,18 @@ def run_threaded(sc, max_rounds=120):
             ctx.loop = lp
             lp.step_cap = sc.get('step_cap', 400_000)
             lp.on_idle = lambda: spin_idle()
+            # A callback handed to the loop with plain call_soon() from another thread (a future resolved there,
+            # Condition.notify() ...) does not wake a loop that sleeps in its selector: it only runs once something
+            # else wakes the loop - a timer, call_soon_threadsafe(), add_callback().
+            plain_call_soon = lp.call_soon
+
+            def call_soon(callback, *args, context=None):
+                h = plain_call_soon(callback, *args, context=context)
+                if isinstance(sched.current, Caller):
+                    foreign.add(id(h))
+                    rec.rec('unwoken_call_soon', sched.current.cid)
+                return h
+            lp.call_soon = call_soon
         time_base = lp if lp is not None else clock
 
         def spin_idle():
@@ -224,7 +237,9 @@ def run_threaded(sc, max_rounds=120):
             if lp is None:
                 return False
             if lp._ready:
-                return True
+                if any(id(h) not in foreign for h in lp._ready):
+                    return True
+                # (only callbacks that a foreign thread slipped in without waking the loop: it sleeps on)
             while lp._scheduled and lp._scheduled[0]._cancelled:
                 import heapq
                 h = heapq.heappop(lp._scheduled)
@@ -242,6 +257,7 @@ def run_threaded(sc, max_rounds=120):
             lp._thread_id = threading.get_ident()
             asyncio.events._set_running_loop(lp)
             try:
+                foreign.clear()
                 lp._run_once()
             finally:
                 asyncio.events._set_running_loop(None)
